@@ -278,7 +278,12 @@ func (r *Runtime) Close(err *error) {
 			}
 		}
 	}()
-	r.runFinalizers(r.weakRefPool.ExtractAllMarkedFinalize())
+	pendingFinalize := r.weakRefPool.ExtractAllMarkedFinalize()
+	if r.Status() != StatusKilled {
+		// The finalizers of a killed context are skipped (it has no
+		// resources left to run them), its resources are still released.
+		r.runFinalizers(pendingFinalize)
+	}
 	return
 }
 
